@@ -111,10 +111,34 @@ func PageSources() string {
 
 var unsafeFileNameRegexp = regexp.MustCompile("[^a-zA-Z0-9_-]+")
 
+// isReservedPageKey returns true if key (the name of a page without ".html")
+// is the name of one of the pages that always have the same name, like
+// places.html or individuals-a.html. An individual, place or source may well
+// be called "Places".
+func isReservedPageKey(key string) bool {
+	switch key {
+	case "places", "families", "sources", "statistics", "surnames":
+		return true
+	}
+
+	// individuals-a to individuals-z and individuals-symbol.
+	if strings.HasPrefix(key, "individuals-") {
+		letter := strings.TrimPrefix(key, "individuals-")
+
+		return len(letter) == 1 || letter == "symbol"
+	}
+
+	return false
+}
+
 func PageSource(source *gedcom.SourceNode) string {
 	// The pointer can be anything that does not contain a "@". It must not be
 	// able to name a file in another directory ("../x").
 	name := unsafeFileNameRegexp.ReplaceAllString(source.Pointer(), "-")
+
+	if isReservedPageKey(strings.ToLower(name)) {
+		name = "source-" + name
+	}
 
 	return fmt.Sprintf("%s.html", name)
 }
@@ -174,6 +198,10 @@ func getUniqueKey(individualMap map[string]*gedcom.IndividualNode, s string, pla
 		}
 
 		if _, ok := individualMap[testString]; ok {
+			continue
+		}
+
+		if isReservedPageKey(testString) {
 			continue
 		}
 
